@@ -4,7 +4,7 @@ from fractions import Fraction
 
 from .. import alg, convmodel
 from ..alg import Poly, P, B, C, sym, sum_over, lt, mk_fn, Facts
-from ..interp import Interp, Hooks, Arr, Obj, Unk, GenList, Pinned, symarr, scalar, num, unit_atom, decide_with, count_atom, index_atom
+from ..interp import Interp, Hooks, Arr, Obj, Unk, GenList, Pinned, symarr, scalar, num, unit_atom, decide_with, count_atom, index_atom, _is_pynum, Raised, PyRaise
 from ..fitmodel import loc, compare
 from ..astutil import up, walk_local, stores, chain, calls
 from ..rules import where
@@ -408,6 +408,157 @@ def slice_bounds(a):
     return Poly.from_key(at[3][2]), val(at[4]), val(at[5]), val(at[6])
 
 
+class _GridHooks(Hooks):
+    """integrate_subset on a grid of a few known positions: every comparison of limits and samples, and every searchsorted, is decided by the ordering fixed for
+    the case (knots.py: a limit lies on a sample or strictly between two neighbours)"""
+    def __init__(self, facts, n):
+        self.facts, self.n = facts, n
+
+    def simplify(self, p):
+        ca = count_atom(N)
+        return self.facts.simplify(alg.rebuild(p, lambda a: Poly.const(self.n) if a == ca else None))          # the grid has n samples
+
+    def decide(self, interp, test, env, mod):
+        return decide_with(interp, test, env, mod, facts=self)
+
+    def external(self, interp, name, args, kwargs, node, mod):
+        if name.endswith('.searchsorted') and len(args) == 2 and set(kwargs) <= {'side'}:
+            a, v = interp._as_arr(args[0]), interp._as_arr(args[1])
+            if isinstance(a, Arr) and a.ndim == 1 and a.mask is None and a.dims[0] in interp.axis_len and isinstance(v, Arr) and v.ndim == 0:
+                right, tot = kwargs.get('side') == 'right', 0
+                for j in range(interp.axis_len[a.dims[0]]):
+                    e_ = alg.index_at(a.poly, a.dims[0], Poly.const(j))
+                    b = self.simplify((Poly.const(1) - lt(v.poly, e_)) if right else lt(e_, v.poly))
+                    if not b.is_const():
+                        return NotImplemented
+                    tot += int(b.const_value())
+                return tot
+        return NotImplemented
+
+
+def integrate_subset_by_value(ctx, n=4):
+    """integrate_subset interpreted on a grid of n samples, stored in increasing and in decreasing order, with each limit on a sample or strictly between two
+    neighbours (every pair of positions, in both orders, and the two limits equal): the value returned must be the integral of the piecewise-linear function
+    through the samples between the smaller and the larger limit (0 for equal limits).  True when every case was decided (the verdicts are then recorded)."""
+    from .. import knots
+    repo = ctx.repo
+    fi = ctx.fn(repo.func('utils.integrate', 'integrate_subset'))
+    where_ = loc(fi)
+    half = Poly.const(Fraction(1, 2))
+    xs = [alg.index_at(sym('x', N), N, Poly.const(k)) for k in range(n)]
+    ys = [alg.index_at(sym('y', N), N, Poly.const(k)) for k in range(n)]
+    # positions of a limit, in the order of increasing abscissa: ('at', j) on sample j, ('in', j) strictly between samples j and j+1; rank on a scale where
+    # sample j has rank 4j and the open interval above it holds ranks 4j+1 (the lower of two limits in it) and 4j+2
+    spots = [('at', j) for j in range(n)] + [('in', j) for j in range(n - 1)]
+    bad, ncase = [], 0
+    for decreasing in (False, True):
+        X = xs[::-1] if decreasing else xs          # samples in the order of increasing abscissa
+        Y = ys[::-1] if decreasing else ys
+        kr = [4 * j for j in range(n)]
+        for ka, ja in spots:
+            for kb, jb in spots:
+                for flip in ((False, True) if (ka, ja) == (kb, jb) and ka == 'in' else (False,)):
+                    ra = 4 * ja if ka == 'at' else 4 * ja + (2 if flip else 1)
+                    rb = 4 * jb if kb == 'at' else 4 * jb + (1 if flip else 2)
+                    if ka == 'in' and kb == 'in' and ja != jb:
+                        ra, rb = 4 * ja + 1, 4 * jb + 1
+                    a = X[ja] if ka == 'at' else sym('lim1')
+                    b = X[jb] if kb == 'at' else sym('lim2')
+                    pts, rks = list(X), list(kr)
+                    if ka == 'in':
+                        pts.append(a); rks.append(ra)
+                    if kb == 'in':
+                        pts.append(b); rks.append(rb)
+                    facts = alg.OrderFacts(pts, rks)
+                    hk = _GridHooks(facts, n)
+                    I = Interp(repo, hk)
+                    I.exact_le = True
+                    I.axis_len[N] = n
+                    name = lambda kind, j: ('on sample %d' % j) if kind == 'at' else ('between samples %d and %d' % (j, j + 1))
+                    try:
+                        out = I.call(fi, [symarr('x', (N,), unit=num(1)), symarr('y', (N,), unit=num(1)), scalar(a, num(1)), scalar(b, num(1))])
+                    except (Raised, PyRaise) as ex:
+                        if I.lost or I.findings:
+                            return False
+                        # every test on the way was decided by the ordering of the case: limits inside the grid are refused
+                        ncase += 1
+                        bad.append('grid stored in %s order, first limit %s, second limit %s (samples numbered by increasing abscissa): raises (%s)'
+                                   % ('decreasing' if decreasing else 'increasing', name(ka, ja), name(kb, jb), str(ex)[:80]))
+                        continue
+                    except Exception:
+                        return False
+                    if isinstance(out, Unk) and 'always raises on this configuration' in str(out.why) and not I.lost and not I.findings:
+                        # every test on the way was decided by the ordering of the case: limits inside the grid are refused
+                        ncase += 1
+                        bad.append('grid stored in %s order, first limit %s, second limit %s (samples numbered by increasing abscissa): %s'
+                                   % ('decreasing' if decreasing else 'increasing', name(ka, ja), name(kb, jb), str(out.why)[:110]))
+                        continue
+                    if _is_pynum(out):
+                        out = scalar(Poly.const(Fraction(out).limit_denominator(10 ** 9)), num(1))
+                    if not isinstance(out, Arr) or out.ndim != 0 or out.mask is not None or I.lost or I.findings:
+                        return False
+
+                    def expand(p_):
+                        def f(at_):
+                            if at_[0] == 'sum' and at_[1] in I.axis_len:
+                                inner, tot = Poly.from_key(at_[2]), Poly()
+                                for k_ in range(I.axis_len[at_[1]]):
+                                    tot = tot + alg.index_at(inner, at_[1], Poly.const(k_))
+                                return expand(tot)
+                            if at_[0] == 'ind' and at_[1] in ('isnan', 'isinf'):
+                                return Poly()          # finite samples (what integrate does with NaN samples is ALG-13's business)
+                            return None
+                        return alg.rebuild(p_, f)
+                    try:
+                        got = hk.simplify(expand(hk.simplify(out.poly)))
+                    except (RecursionError, ZeroDivisionError):
+                        return False
+                    if not knots.closed_form(got):
+                        return False
+                    # the definition
+                    lo, hi = ((ka, ja, a, ra), (kb, jb, b, rb)) if ra <= rb else ((kb, jb, b, rb), (ka, ja, a, ra))
+                    def value(kind, j, t):
+                        return Y[j] if kind == 'at' else Y[j] + (Y[j + 1] - Y[j]) * (t - X[j]) * (X[j + 1] - X[j]).pow(-1)
+                    chain_ = [(lo[2], value(lo[0], lo[1], lo[2]))] + [(X[j], Y[j]) for j in range(n) if lo[3] < 4 * j < hi[3]] + [(hi[2], value(hi[0], hi[1], hi[2]))]
+                    ref = Poly()
+                    if ra != rb:
+                        for (t0, f0), (t1, f1) in zip(chain_[:-1], chain_[1:]):
+                            ref = ref + half * (t1 - t0) * (f0 + f1)
+                    ncase += 1
+                    if not knots.equal(got, ref):
+                        bad.append('grid stored in %s order, first limit %s, second limit %s (samples numbered by increasing abscissa)%s: returns %s where the integral is %s'
+                                   % ('decreasing' if decreasing else 'increasing', name(ka, ja), name(kb, jb), ', the first limit the larger' if ra > rb else '', alg.show(got, 90), alg.show(ref, 90)))
+    ctx.expect(not bad, 'CFG-11b', 'integrate_subset on a grid of %d samples, every position of the two limits, both storage orders' % n, where_,
+               '%d cases: the integral of the piecewise-linear function through the samples between the smaller and the larger limit (0 for equal limits)' % ncase,
+               '%d of %d cases differ, e.g. %s' % (len(bad), ncase, '; '.join(bad[:2])), 'intsub-by-value')
+    return True
+
+
+
+def check_filter_read(ctx):
+    """Filter.read: the response curve a text file gives - wavelengths (micron) in the first column, response in the second - is the filter's (nu, response)"""
+    from ..fitsem import FitsHooks
+    from ..interp import ClassRef
+    repo = ctx.repo
+    ci = repo.cls('filter.filter', 'Filter')
+    ff = ci.methods.get('read')
+    if ff is None:
+        return
+    ctx.fn(ff)
+    I = Interp(repo, FitsHooks())
+    try:
+        out = I.call(ff, [ClassRef(ci), 'FILE'])
+    except Exception as ex:
+        out = Unk('Filter.read: %s' % type(ex).__name__)
+    col0, col1 = sym('filecol0', 'row'), sym('filecol1', 'row')
+    micron = unit_atom('micron')
+    nu = I.getattr(out, 'nu', None, ff.module) if isinstance(out, Obj) else out
+    resp = I.getattr(out, 'response', None, ff.module) if isinstance(out, Obj) else out
+    compare(ctx, 'ALG-13', 'Filter.read: frequencies', loc(ff), nu, mk_fn('spectral', P(col0 * micron)), ('row',), vocab={'filecol0', 'filecol1'}, fns={'spectral'},
+            detail_ok='the first column of the file, in micron, as frequencies')
+    compare(ctx, 'ALG-13', 'Filter.read: response', loc(ff), resp, col1, ('row',), vocab={'filecol0', 'filecol1'}, fns={'spectral'}, detail_ok='the second column of the file')
+
+
 def check_integrate_subset(ctx):
     repo = ctx.repo
     fi = ctx.fn(repo.func('utils.integrate', 'integrate_subset'))
@@ -652,7 +803,13 @@ def run(ctx):
     check_integrate(ctx)
     check_normalize(ctx)
     check_rebin(ctx)
-    check_integrate_subset(ctx)
+    # integrate_subset: decided by value on a grid of three (quick tier) or four (thorough tier) samples; the rules that read its layout (hstack([lower, interior, upper]), the bracketing pair handed to
+    # interp1d_fast) corroborate an OK verdict and stand in, as suspects, when the interpretation has none
+    from ..roundtrip import SuspectCtx, CorroborateCtx
+    sub = CorroborateCtx(ctx, 'decided by value on a grid of a few samples') if integrate_subset_by_value(ctx, 4 if getattr(ctx, 'tier', 'quick') == 'thorough' else 3) else \
+        SuspectCtx(ctx, 'integrate_subset was not decided by value and the rule that reads its layout reports')
+    check_integrate_subset(sub)
+    check_filter_read(ctx)
     check_drivers(ctx)
     check_rebin_cache(ctx)
     # F_nu(nu_i) is the spectrum as stored: the drivers read it with SED.read / the cube reader in mJy (round trip decided by interpretation, roundtrip.py)
